@@ -7,11 +7,15 @@
         load_shard (mem_file (write_shard next (add_repos repos) opaque)) = Ok d /\
         forall i, doc_view d i = normalised document i   /\   forall ngram g, Get g = posting list of g.
     Proved here, for ALL inputs: the codec layer (every varint / delta list / document-section list decodes to what
-    was encoded, including unsorted lists through the uint32/uint16 wrap-around) and the b-tree layer (for every
-    number of ascending ngrams, find returns the bucket holding the key).  The layout/TOC/reader composition
-    (C09_read_write) is NOT yet a theorem: it is covered by the byte-exact correspondence and the model-internal
-    read-back check of the runner on every generated shard. *)
-From ZV Require Import Lib.Base Lib.Varint Generated.FormatConsts Model.Format Model.Btree Proofs.FormatCodec Proofs.Btree.
+    was encoded, including unsorted lists through the uint32/uint16 wrap-around), the b-tree layer (for every
+    number of ascending ngrams, find returns the bucket holding the key), the layout layer (every section that Write
+    emits is read back from the record stored for it; every item of a compound section through its relative index)
+    and the document-level read-back C09_document_readback_partial (name, content, symbol sections, newline index of
+    every document of every builder state).  Still NOT a theorem: that readTOCSections/readIndexData hand exactly the
+    written records to the accessors (parsing of the tagged TOC) and the builder-side normalisation (add_doc) being
+    composed into one end-to-end statement — both are covered by the byte-exact correspondence and the
+    model-internal read-back check of the runner on every generated shard. *)
+From ZV Require Import Lib.Base Lib.Varint Generated.FormatConsts Model.Format Model.Btree Proofs.FormatCodec Proofs.Btree Proofs.FormatLayout Proofs.BtreeGet.
 Open Scope N_scope.
 
 (** binary.Uvarint (binary.PutUvarint x ++ rest) = (x, bytes consumed) for every uint64. *)
@@ -58,14 +62,74 @@ Theorem C09_btree_find_spec : forall half v gs p, (1 <= half)%nat -> (2 <= v)%na
 Proof. exact btree_find_spec. Qed.
 Print Assumptions C09_btree_find_spec.
 
+(** btreeIndex.Get over the written ngramText section, for EVERY ascending ngram list (any length) laid out anywhere
+    in a file < 4 GiB: Get gs[p] = getPostingList p (the posting-list record of that ngram), and Get g = the empty
+    section for every g that is not in the list — find + getBucket (last-bucket size) + IndexFile.Read + sort.Search. *)
+Theorem C09_btree_get_spec : forall half v gs pre post pidx,
+  (1 <= half)%nat -> N.of_nat half * 8 < W32 -> (2 <= v)%nat -> asc gs -> Forall (fun n => n < W64) gs ->
+  nlen (pre ++ concat (map be64 gs) ++ post) < W32 ->
+  let text := concat (map be64 gs) in
+  let f := mem_file (pre ++ text ++ post) in
+  let b := new_btree_index (2 * half) v text (nlen pre, nlen text) pidx in
+  (forall p, (p < length gs)%nat -> btree_get f b (nth p gs 0) = get_posting_list f b p)
+  /\ (forall g, ~ In g gs -> btree_get f b g = (0, 0)).
+Proof.
+  intros half v gs pre post pidx H1 H2 H3 H4 H5 H6. cbv zeta. split.
+  - intros p Hp. apply btree_get_present; auto.
+  - intros g Hg. apply btree_get_absent; auto.
+Qed.
+Print Assumptions C09_btree_get_spec.
+
 (** ... and the buckets together hold every ngram exactly once *)
 Theorem C09_btree_sizes_spec : forall half v gs, (1 <= half)%nat -> (2 <= v)%nat -> asc gs ->
   nsizes (bt_build (2 * half) v gs) = length gs.
 Proof. exact btree_sizes_spec. Qed.
 Print Assumptions C09_btree_sizes_spec.
 
+(** Layout: a simple section (fileEndSymbol, branchMasks, ngramText, runeOffsets, checksums, JSON blobs, ...) is read
+    back byte for byte from the (off, sz) record that Write stores for it — for every section list, every file < 4 GiB. *)
+Theorem C09_simple_section_readback : forall secs k t d, nth_error secs k = Some (t, SimpleB d) ->
+  nlen (write_file secs) < W32 ->
+  exists off, nth_error (snd (layout 0 secs)) k = Some (t, RSimple off (nlen d))
+              /\ file_read (mem_file (write_file secs)) off (nlen d) = Ok d.
+Proof. exact simple_section_readback. Qed.
+Print Assumptions C09_simple_section_readback.
+
+(** Layout: a compound section (fileContents, fileNames, fileSections, newlines, postings, symbol maps): its index
+    table reads back as the absolute item offsets, and EVERY item is read back through relativeIndex (offset index +
+    final data size), whatever the item sizes (empty items, many items). *)
+Theorem C09_compound_section_readback : forall secs k t items, nth_error secs k = Some (t, CompoundB items) ->
+  nlen (write_file secs) < W32 ->
+  exists doff, let dsz := nlen (concat items) in
+    nth_error (snd (layout 0 secs)) k = Some (t, RCompound doff dsz (doff + dsz) (4 * nlen items))
+    /\ read_section_words 4 (mem_file (write_file secs)) (doff + dsz) (4 * nlen items) = Ok (item_offsets doff items)
+    /\ forall i it, nth_error items i = Some it ->
+         read_item (mem_file (write_file secs)) doff (relative_index (item_offsets doff items) dsz) (N.of_nat i) = Ok it.
+Proof. exact compound_section_readback. Qed.
+Print Assumptions C09_compound_section_readback.
+
+(** Document level (partial: see the header): for EVERY builder state, opaque blobs and format version, document i's
+    name, content, symbol sections and newline index are read back exactly from the written file through the
+    accessors' path (relative index -> IndexFile.Read -> delta decoders). *)
+Theorem C09_document_readback_partial : forall next b o i name content secs,
+  let file := write_shard next b o in
+  let f := mem_file file in
+  nlen file < W32 ->
+  nth_error (b_contents b) i = Some content -> nth_error (b_names b) i = Some name ->
+  nth_error (b_docSections b) i = Some secs -> Forall sec_ok secs -> nlen secs < W32 -> nlen content < W32 ->
+  exists coff noff soff loff,
+    let ri items off := relative_index (item_offsets off items) (nlen (concat items)) in
+    read_item f coff (ri (b_contents b) coff) (N.of_nat i) = Ok content
+    /\ read_item f noff (ri (b_names b) noff) (N.of_nat i) = Ok name
+    /\ (do blob <- read_item f soff (ri (map marshal_doc_sections (b_docSections b)) soff) (N.of_nat i);
+        unmarshal_doc_sections blob) = Ok secs
+    /\ (do blob <- read_item f loff (ri (map (fun c => to_sized_deltas (newlines_indices c)) (b_contents b)) loff) (N.of_nat i);
+        from_sized_deltas blob) = Ok (newlines_indices content).
+Proof. exact document_readback. Qed.
+Print Assumptions C09_document_readback_partial.
+
 (** the constants compiled into /repo satisfy the hypotheses of the b-tree theorems (regenerated every run) *)
-Example C09_consts_ok : btreeBucketSize = (2 * (btreeBucketSize / 2))%nat /\ (1 <= btreeBucketSize / 2)%nat /\ (2 <= btreeV)%nat
+Example C09_consts_ok : btreeBucketSize = (2 * (btreeBucketSize / 2))%nat /\ (1 <= btreeBucketSize / 2)%nat /\ N.of_nat (btreeBucketSize / 2) * 8 < W32 /\ (2 <= btreeV)%nat
                         /\ ngramEncoding = 8 /\ runeOffsetFrequency = 100.
 Proof. vm_compute. repeat split; try reflexivity; repeat constructor. Qed.
 
@@ -78,6 +142,15 @@ Proof. vm_compute. split; reflexivity. Qed.
 Example C09_nonvacuous_docsecs :
   unmarshal_doc_sections (marshal_doc_sections [(3, 7); (7, 7); (300, 70000)]) = Ok [(3, 7); (7, 7); (300, 70000)].
 Proof. vm_compute. reflexivity. Qed.
+
+Example C09_nonvacuous_document :   (* a two-document builder state obtained with the model of ShardBuilder.Add *)
+  let d1 := mkDocIn [97;46;103;111] [102;111;111;10;98;97;114;10] 0 true [(0,3)] [([102],[],[])] [] 0 in
+  let d2 := mkDocIn [98] [0;1] 0 true [] [] [] 0 in      (* NUL byte: stored as NOT-INDEXED *)
+  let b := add_repos [([], [d1; d2])] 0 b_empty in
+  b_contents b = [[102;111;111;10;98;97;114;10]; notIndexedMarker ++ nth 3 skip_explanations []]
+  /\ b_docSections b = [[(0,3)]; []]
+  /\ nlen (write_shard false b (mkOpaque [] [] [] None [123;125] [123;125])) = 1358.
+Proof. vm_compute. repeat split; reflexivity. Qed.
 
 Fixpoint upto (n : nat) (k : N) : list N := match n with O => [] | S m => k :: upto m (k + 3) end.
 Example C09_nonvacuous_btree :   (* bucketSize 4, v 2, 23 keys: leaf, inner and root splits; key 17 (= 5 + 3*4... position 4) *)
